@@ -455,6 +455,84 @@ def kernel_set_cases(ctx):
                    tags={'kernel': 'ufunc_set_iter'})
 
 
+
+def kernel_correspondence_cases(ctx):
+    """IndexCorrespondence.from_correspondence called directly on all pairs of repetition-free sequences of 3 labels
+    (int, mixed object) and on random hierarchical pairs."""
+    import static_frame as sf
+    from static_frame.core.index_correspondence import IndexCorrespondence
+
+    def positions(x):
+        if x is None:
+            return []
+        if isinstance(x, slice):
+            raise ValueError('slice iloc outside the model')
+        return [int(v) for v in np.asarray(x).reshape(-1).tolist()]
+
+    def one(src, dst, kind):
+        ic = IndexCorrespondence.from_correspondence(src, dst)
+        ls, ld = lit.labels(src), lit.labels(dst)
+        osrc, odst = positions(ic.iloc_src), positions(ic.iloc_dst)
+        obs = f'{lit.b(ic.has_common)} {lit.b(ic.is_subset)} {lit.z(ic.size)} {lit.lst([lit.z(v) for v in osrc])} {lit.lst([lit.z(v) for v in odst])}'
+        ctx.count(f'kernel:ic:{kind}', 'kernel:ic:' + ('subset' if ic.is_subset else 'partial' if ic.has_common else 'none'))
+        return Case('kernel:from_correspondence',
+                    {'call': f'IndexCorrespondence.from_correspondence({plain(ls)!r}, {plain(ld)!r})',
+                     'observed': {'has_common': bool(ic.has_common), 'is_subset': bool(ic.is_subset), 'iloc_src': osrc, 'iloc_dst': odst}},
+                    m=f'MIC {lit.b(src.depth > 1)} {lit.dtype(src.values.dtype)} {lit.dtype(dst.values.dtype)} {lit.vlist(ls)} {lit.vlist(ld)} {obs}',
+                    s=f'SIC {lit.vlist(ls)} {lit.vlist(ld)} {obs}', tags={'kernel': 'from_correspondence', 'kind': kind},
+                    nontrivial=bool(ic.has_common))
+    for kind in ('int', 'obj'):
+        seqs = list(nodup_seqs(UNIVERSES[kind][:3]))
+        idx = {s: make_index(s, kind) for s in seqs}
+        for sa in seqs:
+            for sb in seqs:
+                yield one(idx[sa], idx[sb], kind)
+    rng = ctx.rng
+    for _ in range(ctx.n(60, 1500)):
+        kind = rng.choice(('ih_si', 'ih_ii', 'tup', 'str'))
+        la, lb = rand_labels(rng, kind, rng.randint(1, 6)), rand_labels(rng, kind, rng.randint(1, 6))
+        if kind.startswith('ih'):
+            a, b = sf.IndexHierarchy.from_labels(la), sf.IndexHierarchy.from_labels(lb)
+        else:
+            a, b = make_index(la, kind), make_index(lb, kind)
+        yield one(a, b, kind)
+
+
+def malformed_cases(ctx):
+    """Operands outside the aligned domain: an unlabelled array of the wrong length.  The property does not speak
+    about them; the model must predict the rejection (no silent positional pairing)."""
+    rng = ctx.rng
+    for _ in range(ctx.n(40, 600)):
+        n = rng.randint(2, 5)
+        wrong = rng.choice([k for k in range(0, 8) if k not in (1, n)])
+        other = gen_values(rng, wrong, 'int', 'num')
+        opname = rng.choice(('add', 'sub', 'mul', 'eq', 'lt', 'radd'))
+        dunder, opcoq, swap, okind = BINOPS[opname]
+        if rng.random() < 0.5:
+            a = make_series(rng, rand_labels(rng, 'str', n), 'str', 'int')
+            n_real = len(a)
+            if wrong == n_real:
+                continue
+            obs, odesc, _ = series_obs(lambda: getattr(a, dunder)(other))
+            ok = obs.startswith('(Err')
+            ctx.count('malformed:series-array-length')
+            yield Case('api:series-op-array:malformed', {'call': f'Series(len {n_real}).{dunder}(ndarray len {wrong})', 'observed': odesc},
+                       m=f'MSA {opcoq} {lit.b(swap)} {lit.vlist(lit.labels(a.index))} {lit.vlist(lit.array_vals(a.values))} {lit.vlist(lit.array_vals(other))} {obs}',
+                       py_fail=None if ok else 'an unlabelled array of the wrong length was accepted', tags={'malformed': True, 'container': 'series'})
+        else:
+            ca = rand_labels(rng, 'str', n)
+            dta = ['int'] * len(ca)
+            fa = make_frame(rng, rand_labels(rng, 'int', rng.randint(1, 3)), 'int', ca, 'str', dta, rand_layout(rng, dta))
+            if wrong == len(ca):
+                continue
+            obs, odesc = frame_obs(lambda: getattr(fa, dunder)(other))
+            ok = obs.startswith('(Err')
+            ctx.count('malformed:frame-array-length')
+            yield Case('api:frame-op-array:malformed', {'call': f'Frame({len(ca)} columns).{dunder}(ndarray len {wrong})', 'observed': odesc},
+                       m=f'MFA {opcoq} {lit.b(swap)} {fin_lit(fa)} {lit.vlist(lit.array_vals(other))} {obs}',
+                       py_fail=None if ok else 'an unlabelled array of the wrong length was accepted', tags={'malformed': True, 'container': 'frame'})
+
+
 # ----------------------------------------------------------------------------- binary operators
 F_CMP = 'C06-cmp-unmatched-not-missing'
 F_LOGIC = 'C06-logical-unmatched-raises'
@@ -1035,7 +1113,8 @@ def cases(ctx):
     only = os.environ.get('C06_ONLY')          # debugging aid: substring filter on the stratum name
     with warnings.catch_warnings():
         warnings.simplefilter('ignore')
-        for gen in (witnesses, index_exhaustive, index_random, index_hierarchy_cases, kernel_set_cases, series_exhaustive, series_random, series_scalar_array,
+        for gen in (witnesses, index_exhaustive, index_random, index_hierarchy_cases, kernel_set_cases, kernel_correspondence_cases,
+                    malformed_cases, series_exhaustive, series_random, series_scalar_array,
                     frame_layouts_exhaustive, frame_random, frame_series_cases, frame_scalar_array, frame_reindex_cases):
             for c in gen(ctx):
                 if only is None or only in c.kind or c.kind.startswith('witness'):
